@@ -363,6 +363,7 @@ def run(ctx):
     if ctx.replay:
         one(json.load(open(ctx.replay))["case"])
         lib.flush()
+        shutil.rmtree(ctx.workdir(), ignore_errors=True)
         return
     for _, c in ctx.corpus():
         one(c)
@@ -412,3 +413,4 @@ def run(ctx):
     n_pipe = (24 if ctx.quick else 120) * ctx.scale
     for i in range(n_pipe):
         run_pipeline_case(ctx, pipeline_case(rng, i))
+    shutil.rmtree(ctx.workdir(), ignore_errors=True)
